@@ -427,11 +427,13 @@ def twin_oracle(d, cls, max_prefixes=4):
             elif may_val and ob[0] == 'raised' and not any(it[0] == 'done' and it[2] == 1 for it in tseg):
                 # may_ answered True, no callback raised, and yet the trigger did not complete a transition: it raised
                 # from the library's own resolution of the transition
+                # from the library's own resolution of the transition.  In general an engine failure after the conditions
+                # is not a wrong prediction (DESIGN 9.3); it is one when the description holds a locally declared
+                # transition whose destination is not a state of the declaring scope: such a destination "is not a
+                # registered state" for that transition and has to count as impossible
                 if gdest:
                     out.append(('may-true-but-trigger-cannot-resolve-global-destination-of-local-transition',
                                 dict(info, local_global_dest=gdest[:4]), 'C12.predict:local-global-dest'))
-                else:
-                    out.append(('may-true-but-trigger-raises-by-itself', info, 'C12.predict:nested:' + cls))
             if out:
                 return out, checks, trues
     return out, checks, trues
